@@ -447,7 +447,9 @@ Definition simp_output_name (p : pipeline) (groups : list (list pfunc)) (all_inp
       sort_strs (dedup (base_outs ++ for_others))
   end.
 
-Definition simplify (o : str) (conservative : bool) (p : npipe) : result npipe :=
+(* the grouping: (ids of the functions left alone, [(ids of a group, base first; its output names)]) *)
+Definition simplify_plan (o : str) (conservative : bool) (p : npipe)
+  : result (list str * list (list str * list str)) :=
   let fp := funcs p in
   match (if is_node fp o then producer fp o else None) with
   | None => Err KeyError                                              (* node_mapping[output_name] / assert *)
@@ -464,17 +466,19 @@ Definition simplify (o : str) (conservative : bool) (p : npipe) : result npipe :
           let rest := filter (fun nd => negb (mem_str (nid nd) flat)) p in
           let all_inputs := flat_map pnames (funcs rest) in
           let groups_ids := map (fun kv => fst kv :: snd kv) sorted in
-          let find_nd (k : str) := find (fun nd => str_eqb (nid nd) k) p in
-          let groups_nd := map (fun g => flat_map (fun k => match find_nd k with Some nd => [nd] | None => [] end) g)
-                               groups_ids in
-          let groups_f := map funcs groups_nd in
-          do nested <- mapM (fun ig =>
-                               let oo := simp_output_name fp groups_f all_inputs (fst ig) in
-                               mk_nested (snd ig) (Some oo))
-                            (combine (seq 0 (length groups_nd)) groups_nd);
-          add_all [] (rest ++ nested)
+          let groups_f := map (fun g => flat_map (fun k => match node_func fp k with Some f => [f] | None => [] end) g)
+                              groups_ids in
+          Ok (map nid rest,
+              map (fun ig => (snd ig, simp_output_name fp groups_f all_inputs (fst ig)))
+                  (combine (seq 0 (length groups_ids)) groups_ids))
       end
   end.
+
+Definition simplify (o : str) (conservative : bool) (p : npipe) : result npipe :=
+  do plan <- simplify_plan o conservative p;
+  let find_nd (k : str) := match find (fun nd => str_eqb (nid nd) k) p with Some nd => [nd] | None => [] end in
+  do nested <- mapM (fun g => mk_nested (flat_map find_nd (fst g)) (Some (snd g))) (snd plan);
+  add_all [] (flat_map find_nd (fst plan) ++ nested).
 
 (* ---------- the rewrites as a datatype ---------- *)
 Inductive op :=
